@@ -6,7 +6,7 @@
 
 extern int mpt_qpush(MPT_STRUCT(queue) *queue, size_t len, const void *data)
 {
-	int ret;
+	ssize_t ret;
 	if ((ret = mpt_qpost(queue, len)) < 0) {
 		return ret;
 	}
